@@ -231,6 +231,16 @@ def check(P: Project, R: Report) -> None:
 
     _chunks.no_discard_before_accumulate(R, "R6", pf, loop, pf.qual)
     _chunks.line_cut_discipline(R, "R6", pf, loop, [buf], pf.qual)
+    # one bad event must not end the event stream: no exception edge, break or return leaves the read loop body
+    from ._stdio import TOTAL_STR_METHODS
+
+    def total_str(c: ast.Call) -> bool:
+        return isinstance(c.func, ast.Attribute) and c.func.attr in TOTAL_STR_METHODS and len(c.args) <= 2
+
+    la, lo = run_paths(ast.Module(body=loop.body, type_ignores=[]), fallible_pred=fallible_except_contained(P, pf, extra_total=total_str))
+    esc = sorted({(t, getattr(n, "lineno", 0), ast.unparse(n)[:40]) for _s, t, n in lo.exc})
+    R.ob("R6", "no exception edge leaves the event-stream read loop body (one bad event does not end the stream)", not esc, f"{rel}:{loop.lineno}", f"escaping: {esc[:3]}")
+    R.ob("R6", "no break/return leaves the event-stream read loop", not lo.brk and not lo.ret, f"{rel}:{loop.lineno}", "")
     decodes = [c for c in walk_local(pf.node) if isinstance(c, ast.Call) and isinstance(c.func, ast.Attribute) and c.func.attr == "decode"]
     R.ob("R6", "no stateless per-chunk decode (httpx's aiter_text decodes incrementally)", not decodes and "aiter_text" in ast.unparse(loop.iter), pf.where, "")
     grammar_rule(P, R, A.MOD_SSE, "R6", "")
